@@ -9,8 +9,9 @@ import time
 import traceback
 
 VERIF = os.path.dirname(os.path.dirname(os.path.abspath(__file__)))
-EVIDENCE = os.path.join(VERIF, 'evidence')
-REPLAYS = os.path.join(VERIF, 'replays')
+# mutation / seeded-change runs redirect their output so that committed evidence always comes from /repo itself
+EVIDENCE = os.environ.get('VERIF_EVIDENCE_DIR') or os.path.join(VERIF, 'evidence')
+REPLAYS = (os.environ.get('VERIF_EVIDENCE_DIR') + '/replays') if os.environ.get('VERIF_EVIDENCE_DIR') else os.path.join(VERIF, 'replays')
 DEFAULT_SEED = 20260927
 WORKERS = int(os.environ.get('VERIF_WORKERS', '16'))
 
